@@ -36,8 +36,20 @@ def run(ctx):
     ctx.cov["partial"] = ("vm_never_panics, resolve_never_panics and compile_never_panics are proved for every program of the language, about the compiler and VM "
                            "MODELS; that the models are the Go code (differentials) and the ANTLR parser's crash-freedom: observed only")
     ctx.l1()
+    rarea = None
+    if ctx.replay_file:
+        rarea = (json.load(open(ctx.replay_file)).get("replay") or {}).get("area")
+    if rarea == "nscache":
+        from checks import c08
+        c08.run_cache(ctx, prop="C12")
+        return
     if run_syntax(ctx):  # front end (lexer+parser) on script texts; True = it served a --replay of one of its own cases
         return
+    if not ctx.replay_file:
+        # "leaves nothing behind that changes the outcome of later executions": the engine's compilation cache is such a place — a text
+        # must be answered as a fresh compilation of THAT text, whatever was compiled before it (the stream of C08, judged here too)
+        from checks import c08
+        c08.run_cache(ctx, build=False, prop="C12")
     r = run_numscript(ctx, 2500 if ctx.quick else 100000)
     if r is None:
         return
